@@ -82,9 +82,9 @@ def bit_xor(a, b):
 
 
 class AInt:
-    __slots__ = ('bits', 'signed', 'lo', 'hi', 'kz', 'ko', 'term', 'sym', 'taint')
+    __slots__ = ('bits', 'signed', 'lo', 'hi', 'kz', 'ko', 'term', 'sym', 'taint', 'negof')
 
-    def __init__(self, bits, signed, lo=None, hi=None, kz=0, ko=0, term=None, sym=None, taint=None):
+    def __init__(self, bits, signed, lo=None, hi=None, kz=0, ko=0, term=None, sym=None, taint=None, negof=None):
         self.bits = bits
         self.signed = signed
         tmin, tmax = self.trange(bits, signed)
@@ -95,6 +95,7 @@ class AInt:
         self.term = term
         self.sym = sym
         self.taint = taint
+        self.negof = negof   # this value is exactly the two's complement negation of that AInt (same width)
         self._reduce()
 
     # ------------------------------------------------------------ helpers
@@ -180,7 +181,7 @@ class AInt:
             self.kz = (~u) & m
 
     def with_term(self, term):
-        r = AInt(self.bits, self.signed, self.lo, self.hi, self.kz, self.ko, term, self.sym, self.taint)
+        r = AInt(self.bits, self.signed, self.lo, self.hi, self.kz, self.ko, term, self.sym, self.taint, self.negof)
         return r
 
     def drop(self):
@@ -275,6 +276,10 @@ def _kb_add(a, b, bits, carry_in=0, sub=False):
 def add(a, b, sub=False):
     """returns (wrapped result AInt, overflow in {'no','maybe','yes'})"""
     bits, signed = a.bits, a.signed
+    if b.lo == b.hi == 0 and (a.negof is not None or a.sym is not None):
+        return a, 'no'
+    if not sub and a.lo == a.hi == 0 and (b.negof is not None or b.sym is not None):
+        return b, 'no'
     if a.lo == a.hi and b.lo == b.hi and a.sym is None and b.sym is None and a.term is None and b.term is None:
         v = a.lo - b.lo if sub else a.lo + b.lo
         tmin, tmax = AInt.trange(bits, signed)
@@ -317,12 +322,18 @@ def tneg(t):
 
 def neg(a):
     """wrapping two's complement negation; returns (result, overflow)"""
+    if a.negof is not None:
+        tmin, _ = AInt.trange(a.bits, a.signed)
+        return a.negof, ('no' if (not a.signed or a.lo > tmin) else 'maybe')
     z = AInt.const(a.bits, a.signed, 0, taint='lit')
     r, ov = add(z, a, sub=True)
     if not a.signed:
         ov = 'no'
     if a.term is not None:
         r = r.with_term(tneg(a.term))
+    if a.sym is not None and not a.is_const():
+        r.sym = None
+        r.negof = a
     return r, ov
 
 
@@ -435,6 +446,14 @@ def bitop(op, a, b):
     return AInt(bits, signed, lo, hi, kz, ko, term=term, sym=sym if keep else None, taint=taint2(a, b))
 
 
+def tnot(t):
+    if t is None:
+        return None
+    if isinstance(t, tuple) and t and t[0] == 'not':
+        return t[1]
+    return ('not', t)
+
+
 def bitnot(a):
     sym = [bit_not(x) for x in a.symbits()]
     kz, ko = a.ko, a.kz
@@ -443,7 +462,7 @@ def bitnot(a):
     else:
         m = mask(a.bits)
         lo, hi = m - a.hi, m - a.lo
-    return AInt(a.bits, a.signed, lo, hi, kz, ko, sym=sym if a.sym is not None else None, taint=a.taint)
+    return AInt(a.bits, a.signed, lo, hi, kz, ko, term=tnot(a.term), sym=sym if a.sym is not None else None, taint=a.taint)
 
 
 def shl_const(a, n):
@@ -590,7 +609,10 @@ def cast_int(a, tbits, tsigned):
                 term = (t[0], t[1], t[2], tbits)
             else:
                 term = ('trunc', t, tbits)
-    return AInt(tbits, tsigned, lo, hi, kz, ko, term=term, sym=sym if a.sym is not None else None, taint=a.taint)
+    r = AInt(tbits, tsigned, lo, hi, kz, ko, term=term, sym=sym if a.sym is not None else None, taint=a.taint)
+    if a.negof is not None and tbits == sbits:
+        r.negof = cast_int(a.negof, tbits, tsigned)
+    return r
 
 
 def refine_cmp(op, a, b):
